@@ -372,19 +372,36 @@ def option_sweep(ctx, part, d, rng, codegen, mods):
             check_file(ctx, "options[%s]" % label, os.path.join(dd, srcs[0]), funcs, rng, 25, extra_flags=flags, with_mem=opts["with_mem"], cxx=opts["cpp"], expected=list(funcs))
             nrun += 1
         shutil.rmtree(dd, ignore_errors=True)
-    # the model generators accept the same option set: single toggles on each of them
+    # the model generators accept the same option set: single toggles on each of them, compiled and run differentially
+    # where that is possible here (an option may change how the code is emitted, never what it computes)
+    ti = 0
+    for mname, mod in mods.items():
+        mf = None
+        for k in keys:
+            ti += 1
+            if ti % 5 != part:
+                continue
+            if mf is None:
+                mf = module_functions(mod)
+            sel = {k_: v for k_, v in list(mf.items())[:2]}
+            o = {k: not BASE_OPTS[k]}
+            dd = os.path.join(d, "m_%s_%s" % (mname, k))
+            with quiet():
+                ok = lib_call(ctx, "generate_code", "cyecca.models.%s" % mname, lambda: (mod.generate_code(sel, filename="x.c", dest_dir=dd, **o), True)[1], not_implemented_ok=False)
+            files = sorted(os.listdir(dd)) if os.path.isdir(dd) else []
+            srcs = [f for f in files if f.endswith((".c", ".cpp"))]
+            ctx.check("generation_succeeds_for_option_combination", "cyecca.models.%s" % mname, bool(ok) and len(srcs) >= 1, {"options": "%s=%d" % (k, o[k]), "files": files})
+            full = dict(BASE_OPTS); full.update(o)
+            if ok and len(srcs) == 1 and not full["mex"] and not full["main"]:
+                flags = []
+                if not full["include_math"]:
+                    flags += ["-include", "math.h"]
+                if full["with_mem"]:
+                    flags += ["-I", casadi_include()]
+                by_name = {f.name(): f for f in sel.values()}
+                check_file(ctx, "model_options[%s,%s=%d]" % (mname, k, o[k]), os.path.join(dd, srcs[0]), by_name, rng, 15, extra_flags=flags, with_mem=full["with_mem"], cxx=full["cpp"], expected=list(by_name))
+            shutil.rmtree(dd, ignore_errors=True)
     if part == 0:
-        for mname, mod in mods.items():
-            mf = module_functions(mod)
-            sel = {k: v for k, v in list(mf.items())[:2]}
-            for k in keys:
-                o = {k: not BASE_OPTS[k]}
-                dd = os.path.join(d, "m_%s_%s" % (mname, k))
-                with quiet():
-                    ok = lib_call(ctx, "generate_code", "cyecca.models.%s" % mname, lambda: (mod.generate_code(sel, filename="x.c", dest_dir=dd, **o), True)[1], not_implemented_ok=False)
-                files = sorted(os.listdir(dd)) if os.path.isdir(dd) else []
-                ctx.check("generation_succeeds_for_option_combination", "cyecca.models.%s" % mname, bool(ok) and any(f.endswith((".c", ".cpp")) for f in files), {"options": "%s=%d" % (k, o[k]), "files": files})
-                shutil.rmtree(dd, ignore_errors=True)
         # ... and every pair of toggles (thorough: every combination): an option pair can fail where each alone works
         for mname, mod in mods.items():
             mf = module_functions(mod)
